@@ -1,11 +1,35 @@
 import BsVerif.Core.Proto
 import BsVerif.Model.PathIndex
+import BsVerif.Model.Symbols
 namespace Driver.C17
-open BsVerif BsVerif.Proto BsVerif.PathIndex
+open BsVerif BsVerif.Proto BsVerif.PathIndex BsVerif.Symbols
 
 structure St where
   delim : String := "::"
   ix : Index Nat := {}
+  /-- the registry of the symbol sessions (`new sym` / `symobj` / `symdel`) -/
+  objs : List Entry := []
+
+/-- `x<hex name>:<kind>:<addr>` -/
+def decSym? (tok : String) : Option Sym :=
+  match tok.splitOn ":" with
+  | [n, k, a] => match decStr? n, decNat? k, decNat? a with
+    | some n, some k, some a => some ⟨n, k, a⟩
+    | _, _, _ => none
+  | _ => none
+
+def encSym (s : Sym) : String := s!"{encStr s.name}:{s.kind}:{s.addr}"
+
+/-- `<0|1><0|1>x<hex literal>`: anchored at the start, anchored at the end, literal -/
+def decAlt? (tok : String) : Option Alt :=
+  match tok.toList with
+  | a :: e :: rest =>
+    if (a == '0' || a == '1') && (e == '0' || e == '1') then
+      (decStr? (String.ofList rest)).map fun l => ⟨a == '1', e == '1', l.toList⟩
+    else none
+  | _ => none
+
+def sortTokens (l : List String) : List String := l.mergeSort fun a b => !(b < a)
 
 def step (s : St) : List String → St × String
   | ["new", d] => match decStr? d with
@@ -20,6 +44,32 @@ def step (s : St) : List String → St × String
     | _, _, _ => (s, "bad-op")
   | ["get", needle] => match decStr? needle with
     | some n => (s, encList toString (s.ix.get s.delim n))
+    | none => (s, "bad-op")
+  -- symbol sessions
+  | ["new", "sym", _prog] => ({ s with objs := [] }, "ok")
+  | ["symobj", file, dwarf, symtab] =>
+    let tab? : Option (Option (List Sym)) :=
+      if symtab == "none" then some none else (decList? decSym? symtab).map some
+    match decStr? file, dwarf, tab? with
+    | some f, "0", some t => ({ s with objs := regAddE (load ⟨f, false, t, []⟩) s.objs }, "ok")
+    | some f, "1", some t => ({ s with objs := regAddE (load ⟨f, true, t, []⟩) s.objs }, "ok")
+    | _, _, _ => (s, "bad-op")
+  | ["symdel", file] => match decStr? file with
+    | some f => ({ s with objs := regRemoveE f s.objs }, "ok")
+    | none => (s, "bad-op")
+  | ["symrun", _tpl] => (s, "ok")
+  | ["symobjs"] =>
+    (s, encList id (sortTokens (s.objs.map fun e => s!"{encStr e.obj.file}:{if e.obj.hasDwarf then 1 else 0}")))
+  -- the third token is written by the harness: the file names of the objects the process has mapped (observed
+  -- independently of the debugger); a session whose `symobj` lines do not declare exactly those objects has fed the
+  -- model the wrong registry, and both sides say so instead of answering
+  | ["sym", alts, mapped] => match decList? decAlt? alts with
+    | some [] => (s, "bad-op")
+    | some as =>
+      let declared := sortTokens (s.objs.map fun e => encStr e.obj.file)
+      let seen := sortTokens (if mapped == "-" then [] else mapped.splitOn ",")
+      if declared != seen then (s, "objects-not-declared")
+      else (s, encList id (sortTokens ((getSymbolsE s.objs (patMatches as)).map encSym)))
     | none => (s, "bad-op")
   | _ => (s, "bad-op")
 
